@@ -26,9 +26,9 @@ def make(series, qual, what):
         c = comp(st, idx, i); cm = V(("ref", "Market"), c)
         sh = st.read(cm, "outstanding_shares")
         price = cell(st, cm, series, t)
-        return [("every component declares outstanding shares and has a recorded value at the requested time (not in its future)",
-                 z3.ForAll([i], z3.Implies(z3.And(0 <= i, i < n), z3.And(z3.Not(sh.none), t >= 0, t <= st.read(cm, "time").term,
-                                                                          st.length(series_ref(st, cm, series), ("real",)) > t, z3.Not(price.none))))),
+        return [("every component declares outstanding shares and, unless the requested time lies in its future, has a recorded value at that time",
+                 z3.ForAll([i], z3.Implies(z3.And(0 <= i, i < n), z3.And(z3.Not(sh.none), t >= 0, z3.Implies(t <= st.read(cm, "time").term,
+                                                                          z3.And(st.length(series_ref(st, cm, series), ("real",)) > t, z3.Not(price.none))))))),
                 ("fold-def", z3.And(W(0) == 0, S(0) == 0, z3.ForAll([i], z3.Implies(z3.And(0 <= i, i < n), z3.And(W(i + 1) == W(i) + price.term * z3.ToReal(sh.term), S(i + 1) == S(i) + sh.term))))),
                 ("total outstanding shares non-zero", S(n) != 0), ("len >= 0", n >= 0)]
 
@@ -51,11 +51,20 @@ def make(series, qual, what):
             raise Unsupported(f"anchor-lost: value / share accumulators of {qual}")
         return prod[0], plain[0]
 
+    def future(st, a):
+        """some component has not reached the requested time yet (its value there does not exist: C06 - a query for the future is refused, never answered with an older value)"""
+        idx = a["self"]; t = the_time(st, a); i = z3.Int("i_ixf")
+        n = st.length(st.read(idx, "_components").term)
+        return z3.Exists([i], z3.And(0 <= i, i < n, t > st.read(V(("ref", "Market"), comp(st, idx, i)), "time").term))
+
     def inv(st, ctx):
-        i = ctx["i"]
+        i = ctx["i"]; j = z3.Int("j_ixl")
         tv, ts = accumulators()
-        return [("total_value = W(i)", to_real(st.env[tv]) == W(i)), ("total_shares = S(i)", st.env[ts].term == S(i))]
-    spec = FSpec(qual, pre=pre, post=post, props=("C17",))
+        ent = ctx["fn_entry"]; a = {"self": st.env["self"], "time": ent.env["time"]}
+        t = the_time(ent, a)
+        return [("total_value = W(i)", to_real(st.env[tv]) == W(i)), ("total_shares = S(i)", st.env[ts].term == S(i)),
+                ("no component handled so far lies behind the requested time", z3.ForAll([j], z3.Implies(z3.And(0 <= j, j < i), t <= ent.read(V(("ref", "Market"), comp(ent, st.env["self"], j)), "time").term)))]
+    spec = FSpec(qual, pre=pre, post=post, props=("C17",), raises={"AssertionError": future})
     return spec, {0: LoopSpec(inv, header="self._components", name="components")}
 
 
@@ -80,7 +89,7 @@ def gi_pre(st, a):
     return MARKET_INDEX.pre(st, a)
 
 
-GET_INDEX = FSpec("IndexMarket.get_index", pre=gi_pre, post=lambda st0, st1, a, res: MARKET_INDEX.post(st0, st1, a, res), props=("C17",))
+GET_INDEX = FSpec("IndexMarket.get_index", pre=gi_pre, post=lambda st0, st1, a, res: MARKET_INDEX.post(st0, st1, a, res), props=("C17",), raises=dict(MARKET_INDEX.raises))
 
 
 @task("IndexMarket.get_index", props=["C17"], functions=["IndexMarket.get_index", "IndexMarket.get_market_index"], replay="index")
